@@ -328,4 +328,22 @@ theorem C05_py_opstring_map (s : Nat) (dag undag : List Nat) :
         some ((((mapEachStep dag undag s).1 : Nat) : Int), (((mapEachStep dag undag s).2 % 2 : Nat) : Int)) else none) :=
   GenPy.py_mme_entry s dag undag
 
+/-- the **C** k-fold annihilation map kernel `make_mapping_each_set` (the maps that link sectors differing by `dn`
+    electrons), translated from fci_graph.c on every run: for every 64-bit source and mask and every occupation list
+    below 64 it admits exactly the sources that contain the mask and returns the Model's target and parity count
+    (`mapSetEntry`, which `C05_kfold_map` identifies with the ladder product over the mask's orbitals) -/
+theorem C05_c_kfold_map (source mask : BitVec 64) (occ : List Nat) (h : ∀ x ∈ occ, x < 64) :
+    (GenC.mmes_entry source mask occ occ.length).map (fun r => (r.1.toNat, r.2)) =
+      (if ((source.toNat &&& mask.toNat) ^^^ mask.toNat) = 0 then
+        some ((mapSetEntry occ source.toNat).2.1, (mapSetEntry occ source.toNat).2.2) else none) :=
+  GenC.c_mmes_entry source mask occ h
+
+/-- the **reference-path** k-fold annihilation map kernel (`make_mapping_each_set` of fci_graph_set.py, translated on
+    every run over Python ints) is the Model's `mapSetEntry` as well: both paths fill the same `(target, parity)` -/
+theorem C05_py_kfold_map (source mask : Nat) (ops : List Nat) :
+    GenPy.mmes_entry (source : Int) (mask : Int) (GenPy.castL ops) =
+      (if ((source &&& mask) ^^^ mask) = 0 then
+        some ((((mapSetEntry ops source).2.1 : Nat) : Int), (((mapSetEntry ops source).2.2 : Nat) : Int)) else none) :=
+  GenPy.py_mmes_entry source mask ops
+
 end C05
